@@ -104,6 +104,35 @@ static int probe_depslog(int, char**) {
       for (auto& d : SplitHex(deps)) dn.push_back(s->state.GetNode(d, 0));
       bool ok = s->log.RecordDeps(n, mt, dn);
       printf("REC %d\n", ok);
+    } else if (op == "recmany") {
+      // recmany <outhex> <mtime> <count> <prefixhex>: RecordDeps with <count> dependencies named <prefix><i>
+      std::string out, pre; long long mt; long cnt; is >> out >> mt >> cnt >> pre;
+      Node* n = s->state.GetNode(Unhex(out), 0);
+      std::vector<Node*> dn;
+      std::string prefix = Unhex(pre);
+      for (long i = 0; i < cnt; ++i) dn.push_back(s->state.GetNode(prefix + std::to_string(i), 0));
+      bool ok = s->log.RecordDeps(n, mt, dn);
+      printf("REC %d\n", ok);
+    } else if (op == "dumpcounts") {
+      // "DC <outhex> <mtime> <count> <fnv of the dependency names>" per node with deps
+      const std::vector<Node*>& nodes = s->log.nodes();
+      std::vector<std::string> rows;
+      for (size_t i = 0; i < nodes.size(); ++i) {
+        Node* n = nodes[i];
+        if (!n) continue;
+        DepsLog::Deps* d = s->log.GetDeps(n);
+        if (!d) continue;
+        unsigned long long h = 1469598103934665603ull;
+        for (int k = 0; k < d->node_count; ++k) {
+          const std::string& pth = d->nodes[k]->path();
+          for (unsigned char c : pth) { h ^= c; h *= 1099511628211ull; }
+          h ^= 0xff; h *= 1099511628211ull;
+        }
+        rows.push_back("DC " + Hex(n->path()) + " " + std::to_string((long long)d->mtime) + " " + std::to_string(d->node_count) + " " + std::to_string(h));
+      }
+      std::sort(rows.begin(), rows.end());
+      for (auto& r : rows) puts(r.c_str());
+      puts("ENDDUMP");
     } else if (op == "close") {
       s->log.Close();
     } else if (op == "recompact") {
